@@ -427,7 +427,7 @@ pub fn run(run: &Run) {
     run.assume("the application keeps accepting and reads each delivered stream in its own task");
     prop_search(
         run,
-        Search { check: "independence", cases: run.tier.pick(300, 4000), workers: 8, max_shrink_iters: 60 },
+        Search { check: "independence", cases: run.tier.pick(2000, 20000), workers: 8, max_shrink_iters: 60 },
         case_strategy,
         |c| judge(|| exec(c), true, "C07:blocked"),
         |c| serde_json::to_value(c).unwrap(),
